@@ -46,6 +46,14 @@ CHECKS = {
        'pretty() progress for every string over the repr alphabet (symbolic) and repr-equality on a selector pool.',
   design_ref='DESIGN.md §4 C20',
   technique='CrossHair symbolic execution of real code + z3 (symbolic patterns/offsets), reference line/column oracle, replay'),
+ 'C10': dict(
+  text='Symbolic execution of escape() followed by the real tokenizer/parser on the escaped text, for a symbolic '
+       'character over the whole code point space (controls, C1, surrogates, astral; split into 14 ranges across '
+       'processes): the IR must be exactly one compound carrying the original value, and select() on a 3-element tree '
+       'must return exactly the carrier. Tokenising symbolic text is the slow path: cells that do not exhaust are '
+       'time-boxed counterexample search and are reported as such.',
+  design_ref='DESIGN.md §4 C10',
+  technique='CrossHair symbolic execution of real escape + parser + z3 (symbolic code points), IR/selection oracle, replay'),
 }
 
 NOT_APPLICABLE = {
